@@ -148,7 +148,9 @@ func RunChild(argv []string, env []string, logFile string, watchdog time.Duratio
 	cmd := exec.Command("timeout", full...)
 	cmd.Stdout = lf
 	cmd.Stderr = lf
-	cmd.Env = append(os.Environ(), env...)
+	// soft memory limit for analyzer children: makes the collector work harder instead of letting one child take the
+	// whole machine down (a hard limit would turn memory pressure into spurious crashes)
+	cmd.Env = append(append(os.Environ(), "GOMEMLIMIT=12GiB"), env...)
 	err = cmd.Run()
 	res := ChildResult{LogFile: logFile, Wall: time.Since(start), Status: "ok"}
 	if err != nil {
